@@ -682,15 +682,21 @@ func (a *A) ruleLatePolicy(W *types.Named, add *ssa.Function) {
 	if drop != nil {
 		// path form: with a usable timestamp that is not late (IsEventTimeLate false), is the drop reachable?
 		onlyLate := func(f *ssa.Function, target ssa.Instruction) bool {
-			return !reachUnder(f, target, func(v ssa.Value) Tri {
+			notLate := func(v ssa.Value) Tri {
 				if v == tsOk {
 					return T
 				}
 				if c, ok := v.(*ssa.Call); ok && c.Call.StaticCallee() != nil && isLate(c.Call.StaticCallee()) {
 					return F
 				}
+				// the verdict of a later-written watermark helper (`farFuture, late := wm.Observe(ts)`), also when it is
+				// carried in a named flag: a row that is neither late nor far-future
+				if k := a.wmVerdict(v); k == "late" || k == "far" {
+					return F
+				}
 				return U
-			})
+			}
+			return !(reachUnder(f, target, notLate) && reachOnSomePath(f, target, notLate))
 		}
 		for _, c := range callsTo(add, drop) {
 			a.Check(guardedByCall(c.Block(), isLate, true) || guardedByValue(c.Block(), isTsOk, false) || onlyLate(add, c), fname(add)+"#drop-only-late", c.Pos(),
